@@ -24,23 +24,23 @@ def simcheck(design, text, technique="stateful property-based testing (rapid) of
 
 CHECKS.update({
     "C01": simcheck("§4 C01", "Generated races of conflicting completions, creations, reads, searches, registrations, claims, time-outs, faults and crashes on 3 ids; oracle I1-I4: rows never vanish, creation half frozen, one transition out of pending, then frozen; every promise leaving the server (responses, search hits, claim payloads, notifications) agrees with the stored row at that instant."),
-    "C02": simcheck("§4 C02", "Generated workloads of all 17 request kinds over shared ids under every configuration knob and schedule (holds, batches, faults). Oracle (self-differential, atomic-snapshot explanation): every request's response and own effect must be reproduced by running the real coroutine alone on a committed snapshot of its window at a clock value of its window; failed requests must have left nothing or exactly the sequential effect; an effect sits in one transaction; a time-out the explaining run relies on must really be stored by the time of the response. A pass is a constructive linearization. Blind to sequentially-wrong behaviour by design (covered by C03/C04/C07/C09/C10). Found F15 (repaired).",
+    "C02": simcheck("§4 C02", "Generated workloads of all 17 request kinds over shared ids under every configuration knob and schedule (holds, batches, faults). Oracle (self-differential, atomic-snapshot explanation): every request's response and own effect must be reproduced by running the real coroutine alone on a committed snapshot of its window at a clock value of its window; failed requests must have left nothing or exactly the sequential effect; an effect sits in one transaction; a time-out the explaining run relies on must really be stored by the time of the response; every lock / schedule / task / registration record a response carries must equal a stored row of its window (R1, judged against the database, so also sequentially-wrong answers are seen); every write of the four self-contained background sweeps must be what that sweep writes when run alone on the state it found (an effect acknowledged to a request must not be undone by a sweep deciding on stale rows; F20 is the one listed case). A pass is a constructive linearization. Blind to sequentially-wrong behaviour by design (covered by C03/C04/C07/C09/C10). Found F15 (repaired).",
                     technique="stateful property-based testing (rapid) with a differential oracle: concurrent run vs. the same coroutine run alone on the per-transaction snapshot"),
-    "C03": simcheck("§4 C03", "Generated histories of create / create-with-task / complete on 1-2 ids crossed with key, strict, state, timing around the deadline, plus exact retries (after response, after lost response, racing, after crash); oracle: status table written from the statement and justified by a committed state inside the request window; at most one creation, one completion and one invocation task per id; no repeat changes a row."),
+    "C03": simcheck("§4 C03", "Generated histories of create / create-with-task / complete on 1-2 ids crossed with key, strict, state, timing around the deadline, plus exact retries (after response, after lost response, racing, after crash); oracle: status table written from the statement and justified by a committed state inside the request window; at most one creation, one completion and one invocation task per id; no repeat changes a row. Tier (b): sequential histories of create / create-with-task / complete on one id through HTTP and gRPC of a real server, judged against an executable reference model of the statement and the database file (the path of key, strict flag and requested state through both front ends)."),
     "C04": simcheck("§4 C04", "Generated deadlines on the tick grid with requests and sweeps landing before/at/after them; oracle O1-O4: no pending answer at or after the deadline, no time-out stored or reported before it, timed-out rows have empty value / no key / completed_on = timeout / resolve-on-timeout honoured, caller state never installed at or after the deadline. F13 (new promise already overdue answered 201 PENDING) is a listed known finding."),
     "C06": dict(engine="sim", category="fault_enumeration", design="§4 C06",
                 technique="property-based testing with crash-point enumeration: each generated case is re-run from its recorded decisions once per crash opportunity; invariant oracle over snapshots before/after restart",
-                text="Tier (a): every generated case (workload + schedule) is executed once to count its crash opportunities (before/after every store commit, between any two coroutine steps, inside background sweeps, at flush ends) and then re-executed from the recorded decisions with a crash at each of them (all of them when <= cap, evenly sampled otherwise; thorough cap 400), followed by a deterministic recovery on the same database file with an optional second crash. Oracle D1-D4: acknowledged => committed, restart changes nothing, no committed state is torn (registrations of completed promises, routed promise without task, request effect spread over two transactions), the stored backlog is worked off after restart unless the sweep concerned runs at its full batch size every cycle (capacity); commit failures (ambiguous outcome) are injected as well. Tier (b): real process, default store configuration, SIGKILL under load / SIGTERM / SIGINT, 1-3 kill-restart rounds, read-back of every acknowledged create/complete/subscription/schedule/lock, torn-state check on the database file, background sweep resumes.",
+                text="Tier (a): every generated case (workload + schedule) is executed once to count its crash opportunities (before/after every store commit, between any two coroutine steps, inside background sweeps, at flush ends) and then re-executed from the recorded decisions with a crash at each of them (all of them when <= cap, evenly sampled otherwise; thorough cap 400), followed by a deterministic recovery on the same database file with an optional second crash. Oracle D1-D4: acknowledged => committed, restart changes nothing, no committed state is torn (registrations of completed promises, routed promise without task, request effect spread over two transactions), the stored backlog is worked off after restart unless the sweep concerned runs at full speed (capacity); the recovery includes a downtime, and whatever the other properties' statement-derived oracles object to in the crashed-and-recovered run but not in the crash-free run of the same case counts as a loss across the restart; commit failures (ambiguous outcome) are injected as well. Tier (b): real process, default store configuration, SIGKILL under load / SIGTERM / SIGINT, 1-3 kill-restart rounds, read-back of every acknowledged create/complete/subscription/schedule/lock, torn-state check on the database file, background sweep resumes.",
                 note=SIM_NOTE + " SQLite's fsync/atomic-commit is trusted: a 'crash' drops the kernel with everything in flight and reopens the file. Tier (b) runs a real `resonate serve` (default store configuration) that is SIGKILLed at a drawn wall-clock instant under load or shut down with SIGTERM/SIGINT, restarted on the same file, and every acknowledged write read back (not reproducible in its timing; acknowledged set and server log are saved)."),
-    "C07": simcheck("§4 C07", "Generated claim/complete/heartbeat traffic of two workers with current, stale and future counters against lease sweeps, dispatch cycles and promise completion; oracle T1-T6: claims only from unclaimed+matching counter, one success per (task,counter), counters monotone, finished is final, a holder loses the task only after its guaranteed lease (claim or last heartbeat committed before the lease end, + ttl), by its own completion, task time-out or promise completion; refusals justified by a committed state in the window."),
+    "C07": simcheck("§4 C07", "Generated claim/complete/heartbeat traffic of two workers with current, stale and future counters against lease sweeps, dispatch cycles and promise completion; oracle T1-T6: claims only from unclaimed+matching counter, one success per (task,counter), counters monotone, finished is final, a holder loses the task only after its guaranteed lease (claim / create-with-task or last heartbeat committed before the lease end, + the ttl the holder asked for, not the stored column), by its own completion, task time-out or promise completion; refusals justified by a committed state in the window."),
     "C08": simcheck("§4 C08", "Generated routed/unrouted creations, create-with-task, registrations, completions and claims with the real sender worker and every hand-off outcome, router failures and task batch sizes; oracle B1-B6: invocation task born in the promise's transaction iff the tags route (reference predicate), outstanding tasks finished in the completing transaction, dispatch cycles pick only unclaimed tasks, one per root, none with an enqueued/claimed sibling, enqueued only after success, failed hand-off => attempt+1 and later retry, notify finished after its first attempt, message names (id,counter,links), and every task transition has a cause. Found F18 and F19 (repaired)."),
     "C09": simcheck("§4 C09", "Generated acquire/release/heartbeat of 3 executions x 2 processes on 2 resources with ttl 0..3s, sweeps and clock steps onto lease ends; oracle L1-L5: every response decided on the pre-state of its transaction by a reference model from the statement; the locks table changes only by the holder's release / re-acquire, its process's heartbeat (lease = clock + ttl), or expiry at a tick >= lease end."),
-    "C10": simcheck("§4 C10", "Generated schedules (cron grammar, id templates), clock jumps over many occurrences, schedule batch sizes, create/delete/re-create and user-created occurrence promises racing the cycle, faults and crashes; oracle S1-S4 with an independent robfig/cron computation and reference template expansion: occurrences fire once, in order, never early, promise + advance in one transaction, correct promise fields, nothing fires for a deleted incarnation's later occurrences."),
+    "C10": simcheck("§4 C10", "Generated schedules (cron grammar, id templates), clock jumps over many occurrences, schedule batch sizes, create/delete/re-create and user-created occurrence promises racing the cycle, faults and crashes; oracle S1-S4 with an independent robfig/cron computation and reference template expansion: occurrences fire once, in order, never early, promise + advance in one transaction, correct promise fields, nothing fires for a deleted incarnation's later occurrences; create/delete answers justified by the stored schedule of the request window (idempotent by key)."),
     "C11": simcheck("§4 C11", "Phase 1 builds a reachable backlog without background work, the clock jumps, the kernel restarts with all five background coroutines (registration order permuted) and a configuration drawn over the documented ranges down to batch sizes and coroutine pool of one; a finite failure phase; then cycles (clock + signal timeout, ticks until settled). Oracle: the statement's quiescence predicates (each compared with the clock of an earlier cycle) hold once a bound computed from all pending work / batch sizes has passed, every cycle settles, every background coroutine keeps being started while idle, no task stays dispatchable beyond its bound. Workloads are kept below service capacity (schedule periods >= 60 s, scheduled promises not overdue) so that lag cannot grow without a defect. Found F12 (repaired)."),
-    "C14": simcheck("§4 C14", "Generated populations, queries (wildcards, state subsets, tags, limits relative to the match count) and full cursor traversals through encode->token->decode with creations, completions, deletions and time-outs interleaved; oracle R1-R6: returned items match (id pattern, state mask, tags) in the state the page was computed from and carry that state, the cursor keeps the query, no duplicates, newest-first by sort id, page size and cursor presence, everything that matched throughout a completed traversal is returned, overdue promises never reported pending, tampered tokens rejected."),
+    "C14": simcheck("§4 C14", "Generated populations, queries (wildcards, state subsets, tags, limits relative to the match count) and full cursor traversals through encode->token->decode with creations, completions, deletions and time-outs interleaved; oracle R1-R6: returned items match (id pattern, state mask, tags) in the state the page was computed from and carry that state, the cursor keeps the query, no duplicates, newest-first by sort id, page size and cursor presence (populations larger than the largest page included), the server's own cursor is accepted by the API layer both front ends use, everything that matched throughout a completed traversal is returned, overdue promises never reported pending, tampered tokens rejected."),
     "C18": dict(engine="pollt", category="exploration", design="§5 C18",
                 technique="model-based stateful property testing (rapid state machine) of the production PollWorker loop on harness-owned channels against a reference model; plus a wire-level run with real SSE clients",
-                text="(a) deterministic: connect / disconnect / reconnect-same-id / drain / send / send-with-malformed-receiver-data sequences over 2 groups, ids incl. empty and slashes, limits and buffers down to 1; reference model = registry of live listeners with FIFO buffers; after every operation every channel the harness ever created is audited (contents, closed exactly when the model says, registry count). (b) wire level: the real plugin on a loopback port with SSE clients and churn; each body read at most once, only in its group, only if reported delivered. Found F11 (data null crashes the transport), repaired.",
+                text="(a) deterministic: connect / disconnect / reconnect-same-id / drain / send (half of them through the production sender worker: receiver resolution, body, message type) / send-with-malformed-receiver-data sequences over 2 groups, ids incl. empty and slashes, limits and buffers down to 1; reference model = registry of live listeners with FIFO buffers; after every operation every channel the harness ever created is audited (contents, closed exactly when the model says, registry count). (b) wire level: the real plugin on a loopback port with SSE clients and churn; each body read at most once, only in its group, only if reported delivered. Found F11 (data null crashes the transport), repaired.",
                 note="(a) runs the real PollWorker.Start loop in one goroutine on channels the harness owns (hook VerifLoop only constructs it) and synchronises through barrier messages sent down the same channel, so outcomes are deterministic; the HTTP handler and real network timing are only covered by (b), which samples real scheduling; time-outs there are classified inconclusive, never a violation. The random choice among group members is judged by a validity predicate."),
     "C19": dict(engine="route", category="exploration", design="§5 C19",
                 technique="property-based testing (rapid) of the real router and sender worker against an independent reference resolution written from the statement",
@@ -48,15 +48,15 @@ CHECKS.update({
                 note="Recording plugins stand in for the poll/http transports (those are C18 and C13/C20). JSON field names are matched case-insensitively like Go's decoder (the statement is silent). Receiver data is compared as JSON values."),
     "C12": dict(engine="kernelq", category="exploration", design="§5 C12",
                 technique="stateful property testing (rapid state machine) of the production api/aio queues and system.Tick with a harness-stepped subsystem; plus a goroutine stress run judged after Loop returned",
-                text="(a) deterministic: one goroutine drives submit / burst / tick / complete-one / shutdown on the production internal/api queue, internal/aio completion queue and system.Tick with every size (api queue, completion queue, subsystem queue, coroutine pool, batch sizes) down to 1; oracle: exactly one answer per request at quiescence, door refusals only when the queue can be full (occupancy interval), shutting-down for requests after Shutdown, payload echoed to its own request, Done() reached after Shutdown with everything accepted answered, also when Shutdown meets an idle system; store.Process answers every submission of a batch exactly once, in order, with its own result. (b) stress: real clients, echo + sqlite workers (1 ns tx timeout => natural failures), Loop and Shutdown; judged after Loop and all clients returned: no request answered twice or never.",
+                text="(a) deterministic: one goroutine drives submit / burst / tick / complete-one / shutdown on the production internal/api queue, internal/aio completion queue and system.Tick with every size (api queue, completion queue, subsystem queue, coroutine pool, batch sizes) down to 1; oracle: exactly one answer per request at quiescence, door refusals only when the queue can be full (occupancy interval), shutting-down for requests after Shutdown, payload echoed to its own request, Done() reached after Shutdown with everything accepted answered, also when Shutdown meets an idle system; a Tick that does not return within 5 s is a violation (the kernel is the only consumer of its queues); store.Process answers every submission of a batch exactly once, in order, with its own result. (b) stress: real clients, echo + sqlite workers (1 ns tx timeout => natural failures), Loop and Shutdown; judged after Loop and all clients returned: no request answered twice or never.",
                 note="(b) samples Go scheduler interleavings (not reproducible; its seed only selects sizes); a run whose clients or Loop do not return in 30 s is classified inconclusive, not a violation. Reading suggests a window between the a.done check in EnqueueSQE and Loop's exit (F16); it was not observed and is therefore not a listed finding."),
     "C13": dict(engine="proc", category="exploration", design="§5 C13",
                 technique="grammar + dictionary mutation fuzzing of a real server process over HTTP and gRPC, stateful poison-pill scenarios, restart on the same database, automatic bisection of a failing batch to a minimal request list",
-                text="A real `resonate serve` built from the tree. Generated batches of scenarios: valid skeletons of every endpoint of both protocols x one mutation (absent, empty, null, negative, 0, +-2^31, +-2^63, 1e100, wrong type, 64 KiB, hostile dictionary: JSON literals, template syntax, separators, receivers of every shape, URLs, cron oddities, forged/damaged cursors), and stateful scenarios that store hostile data and trigger its later processing (routing, time-out, registration conversion + dispatch through the real sender/poll/http plugins, schedule firing). After each batch: > 10 background cycles, health check, kill, restart on the same file, cycles, health check. Oracle: process alive and answering, background dispatch still alive (a probe promise routed to a poll listener is delivered after the batch), every request answered, certainly-invalid requests answered 400/InvalidArgument leaving no row, no 5xx for client input. A death or wedge is bisected on fresh servers to a minimal request list. Found and repaired F2, F4, F7, F8, F9, F10 (and F6, F11 through C19/C18).",
+                text="A real `resonate serve` built from the tree. Generated batches of scenarios: valid skeletons of every endpoint of both protocols x one mutation (absent, empty, null, negative, 0, +-2^31, +-2^63, 1e100, wrong type, 64 KiB, hostile dictionary: JSON literals, template syntax, separators, receivers of every shape, URLs, cron oddities, forged/damaged cursors), stateful scenarios that store hostile data and trigger its later processing (routing, time-out, registration conversion + dispatch through the real sender/poll/http plugins, schedule firing), and status walks: ordinary client behaviour the kernel must refuse (task / lock / promise / schedule / registration refusals) through both protocols. After each batch: > 10 background cycles, health check, kill, restart on the same file, cycles, health check. Oracle: process alive and answering, background dispatch still alive (a probe promise routed to a poll listener is delivered after the batch), every request answered, certainly-invalid requests answered 400/InvalidArgument leaving no row, no 5xx for client input. A death or wedge is bisected on fresh servers to a minimal request list within a time budget (rapid's own shrinking is off for this engine). Found and repaired F2, F4, F7, F8, F9, F10 (and F6, F11 through C19/C18).",
                 note="Timing is wall-clock (background cycle 200 ms, waits of 2.6 s / 1.5 s); a slow machine can make a health check miss a deadline: such runs show as wedge reports whose bisection does not reproduce. The dictionary is the corpus; absence of further crashes is not established."),
     "C20": dict(engine="proc", category="exploration", design="§5 C20",
                 technique="property-based round-trip testing (rapid) against a real server process: write through one protocol, read through both, incl. messages received by a real poll listener, and again after a restart",
-                text="Unicode-heavy ids/keys/maps (separators, markup, quotes, spaces, dots, combining marks, astral, bidi/zero-width, template and JSON syntax, NUL via gRPC), data bytes of every value up to 4 KiB, time-outs over the whole int64 range; written via HTTP or gRPC and read via both: read, search, completion value, claim payload, invoke and notify bodies received by a real SSE listener, schedule read and the promises a schedule creates; everything re-read after a restart; ids differing only in case / whitespace / trailing slash / normalisation form / percent-encoding must be distinct promises; derived ids embed the client id verbatim. Found F3 (HTML-escaped schedule ids), repaired.",
+                text="Unicode-heavy ids/keys/maps (separators, markup, quotes, spaces, dots, combining marks, astral, bidi/zero-width, template and JSON syntax, NUL via gRPC), data bytes of every value up to 4 KiB, time-outs over the whole int64 range; written via HTTP or gRPC and read via both: read, search, completion value, claim payload, invoke and notify bodies received by a real SSE listener, schedule read and the promises a schedule creates (two schedules with different tags falling due in the same sweep); everything re-read after a restart; ids differing only in case / whitespace / trailing slash / normalisation form / percent-encoding must be distinct promises; derived ids embed the client id verbatim. Found F3 (HTML-escaped schedule ids), repaired.",
                 note="Idempotency keys written through HTTP are restricted to header-safe strings (HTTP trims and forbids control characters in header values: a transport limit, not the server's). Receiver descriptions are not returned by any read; they are checked through delivery to the listener they name."),
     "C15": dict(engine="front", category="exploration", design="§5 C15",
                 technique="exhaustive enumeration of the (endpoint x kernel status x response shape x delivery) matrix against a stub kernel, plus property-based differential testing (rapid) of HTTP vs gRPC request translation",
@@ -64,7 +64,7 @@ CHECKS.update({
                 note="The stub kernel stands in for the coroutines: only shapes taken from their return sites are delivered (never a 201 claim without task, which the kernel asserts away). The gRPC methods are called directly (hook NewVerifServer), not through a network listener; proto marshalling is exercised by the proc engine (C13/C20)."),
     "C16": dict(engine="storepbt", category="exploration", design="§5 C16",
                 technique="model-based property testing (rapid): real sqlite store vs an executable in-memory reference model, metamorphic batch-vs-single relation, driver-level fault injection enumerated over every statement position",
-                text="Generated sequences of batches of transactions of all 27 command kinds (tiny argument pools, realistic and tiny times) through store.Process on the real sqlite store. Oracle: reference model of the five tables (every Result, every table after every Execute through a second connection; validity predicates for unordered reads); batch vs one-transaction-per-batch equality; an injected failure at EVERY statement position and at commit (wrapping database/sql driver) and natural errors must fail every submission and leave the pre-batch tables; at every statement boundary another connection still sees the pre-batch tables.",
+                text="Generated sequences of batches of transactions of all 27 command kinds (tiny argument pools, realistic and tiny times, guard lists with repeated and reordered states) through store.Process on the real sqlite store. Oracle: reference model of the five tables (every Result, every table after every Execute through a second connection; validity predicates for unordered reads); batch vs one-transaction-per-batch equality; an injected failure at EVERY statement position and at commit (wrapping database/sql driver) and natural errors must fail every submission and leave the pre-batch tables; at every statement boundary another connection still sees the pre-batch tables.",
                 note="Trusted base: the reference model (≈450 lines, written from the statement plus the rule that a CompleteTasks following a no-op UpdatePromise of the same promise in the same transaction is skipped — the F19 repair); SQLite itself; the hook sqlite.NewVerif that injects the instrumented connection. sort_id is compared as an order only."),
     "C17": dict(engine="storepbt", category="exploration", design="§5 C17",
                 technique="differential property testing (rapid): the real postgres.go code path executed through a dialect-translating driver (pgsim) vs the sqlite backend and the reference model",
